@@ -42,7 +42,7 @@ TABLE.update({
                 text="The finite abstract space (2 vehicles, 2 requests, 2 stations, 1 base, each on one of 3 cells or absent: 16 384 states) is explored to closure through the real add/modify/remove/pop operations; after every operation the eight index maps equal the entity-derived ones, forbidden operations are refused, and histories reaching the same entities give identical indexes. The same oracle runs on every state of the W-res and W-req explorations.",
                 note=_ENUM_NOTE),
     "C12": dict(engine="ENUM", design_ref="DESIGN.md 4/C12", technique="bounded exhaustive input enumeration through the real Dispatcher against a brute-force matcher",
-                text="All 160 000 placements of <= 3 vehicles and <= 3 requests on 7 tie-rich cells, and 111 132 combinations of vehicle/request eligibility attributes with and without fleets: pairs are eligible, one-to-one, of size min(#V,#R) per fleet and of brute-force-minimal total grid distance. One open finding (fleet-less vehicles pass every fleet's filter) is recorded in known_findings.json.",
+                text="All 160 000 placements of <= 3 vehicles and <= 3 requests on 7 tie-rich cells, and 111 132 combinations of vehicle/request eligibility attributes with and without fleets: pairs are eligible, one-to-one, of size min(#V,#R) per fleet and of brute-force-minimal total grid distance. ",
                 note=_ENUM_NOTE),
     "C20": dict(engine="ENUM", design_ref="DESIGN.md 4/C20", technique="bounded exhaustive enumeration of shift tables, step lengths and start times through load_scenario/crank against an interval reference",
                 text="36 shift tables (normal, wrapping, empty, touching midnight) x 4 step lengths (incl. one that does not divide a day) x 3 start times, two simulated days each, loaded from real CSV files: availability after every step, on/off events exactly at flips, and no dispatcher assignment to an off-shift driver.",
@@ -67,6 +67,21 @@ TABLE.update({
                 note=_FSX_NOTE),
     "C19": dict(engine="FSX", design_ref="DESIGN.md 4/C19", technique="explicit-state model checking of the implementation with the real file-writing handlers; log lines parsed back after every transition",
                 text="The same explorations with the real Reporter, EventfulHandler (event.log on tmpfs), StatsHandler and VehicleChargeEventsHandler installed: after every transition the appended lines parse as JSON and agree with the state deltas (odometer, energy gained, station load per station, summary counters, exactly one pickup/cancel line per resolved request, one drop-off line per completed trip, one charge line per charging step, waiting times within [0, timeout+step]).",
+                note=_FSX_NOTE),
+})
+
+TABLE.update({
+    "C09": dict(engine="FSX", design_ref="DESIGN.md 4/C09", technique="explicit-state model checking of the implementation; on every reached state the whole instruction menu is applied through apply_instructions, and pairs of instructions from two generators are stepped",
+                text="Atomicity: on every state reached in W-res (K=2) each of ~70 instructions (incl. wrong plug, far away, no capacity, missing target, missing vehicle) either enters the instructed activity with consistent side effects or leaves the SimulationState equal in every field; on every state of a K=1 exploration every (rejected i, other-vehicle j) pair gives the same state as j alone in both orders. Precedence: in W-prec (two scripted generators, autonomous drivers that speak, one human driver going off shift) exactly one instruction takes effect per vehicle and it is the driver's, else the later generator's, else the earlier one's.",
+                note=_FSX_NOTE),
+    "C10": dict(engine="FSX", design_ref="DESIGN.md 4/C10", technique="explicit-state model checking of the implementation, one exploration per membership assignment (exhaustive over the assignment alphabet)",
+                text="For every assignment of memberships (none/f1/f2/both) in the tier's alphabet (quick: 131 assignments over v0, station, base, request; thorough: all 2 048 over both vehicles, station, base, base station, request) a K=2,H=5 exploration with the full instruction menu (incl. a private home base): no vehicle is ever in an activity whose target does not grant it access, and Dispatcher, ChargingFleetManager and the drivers, asked on every reached state, never name such a target.",
+                note=_FSX_NOTE),
+    "C16": dict(engine="FSX", design_ref="DESIGN.md 4/C16", technique="explicit-state model checking of the implementation with deep structural fingerprints of retained states around every transition",
+                text="On every transition of W-res and W-req explorations the retained pre-state (deep walk through tuples, dataclasses, Maps, sets, and any dict/list/ndarray/object of the library incl. the road network) reads identically after the step, after a second identical step, after ~40 apply_instructions calls on the successor and after two further steps; the two executions of each step give the same successor.",
+                note=_FSX_NOTE),
+    "C18": dict(engine="FSX", design_ref="DESIGN.md 4/C18", technique="explicit-state model checking of the implementation (budgeted BFS over the real step function)",
+                text="In W-fifo (one station; 1 plug, 1 plug + small battery that leaves by itself, 2 plug types; 4 vehicles whose id order differs from arrival order) under every placement of at most K arrivals / departures / abandonments within H steps, no vehicle is granted a plug by the queue while a strictly earlier joiner of the same queue keeps waiting; equal enqueue times fall back to vehicle id.",
                 note=_FSX_NOTE),
 })
 
